@@ -287,6 +287,8 @@ def requests_C19(docs, emitted, seed, tier):
                 w = idlgen.inject_unknowns(items, ("ref", it["name"]), v, r, 0.9)
                 if idlgen.union_known_plus_unknown(items, ("ref", it["name"]), w):
                     continue
+                if len(idlgen.sexp(w)) > 1600:
+                    continue          # (every cut is decoded: the 2400-element unknown values belong to C08 / C09 / C11)
                 # (binary only: retention under compact is known finding D37)
                 out.append(f"gl {d['name']}k {it['name']} bin {idlgen.sexp(w)} oracle-only")
     # the witness of Props/C19.list_arm_leaks, on the real emitted code
